@@ -184,6 +184,117 @@ func checkC07(c *core.Ctx) {
 	r2 := c.Rule("R7.2", "D", "no requested byte is read before it is written")
 	r3 := c.Rule("R7.3", "D", "serializers have no definite out-of-range access to a layer's slice fields")
 	r4 := c.Rule("R7.4", "T", "serializers read no mutable global; no global array escapes into a layer field")
+	r6 := c.Rule("R7.6", "T", "no write through a stale view: bytes obtained from the SerializeBuffer (Bytes, PrependBytes, AppendBytes) are not written through after a later PrependBytes/AppendBytes on that buffer, which may move the data to a new array")
+	{
+		n := 0
+		for _, fn := range core.SortedFns(p.Roots().SerReach) {
+			if fn.Pkg == nil || len(fn.Blocks) == 0 || strings.HasSuffix(p.Pos(fn.Pos()), "_test.go") {
+				continue
+			}
+			isBufCall := func(ins ssa.Instruction, names ...string) (ssa.Value, bool) {
+				cc := core.CallCommonOf(ins)
+				if cc == nil || !cc.IsInvoke() || !core.NamedIs(cc.Value.Type(), "SerializeBuffer") {
+					return nil, false
+				}
+				for _, nm := range names {
+					if cc.Method.Name() == nm {
+						return cc.Value, true
+					}
+				}
+				return nil, false
+			}
+			k := 0
+			core.Instrs(fn, func(ins ssa.Instruction) {
+				buf, ok := isBufCall(ins, "Bytes", "PrependBytes", "AppendBytes")
+				if !ok {
+					return
+				}
+				call, isCall := ins.(*ssa.Call)
+				if !isCall {
+					return
+				}
+				var view ssa.Value = call
+				if call.Call.Method.Name() != "Bytes" {
+					view = nil
+					for _, r := range *call.Referrers() {
+						if e, ok := r.(*ssa.Extract); ok && e.Index == 0 {
+							view = e
+						}
+					}
+				}
+				if view == nil {
+					return
+				}
+				n++
+				k++
+				key := fmt.Sprintf("%s/view#%d", core.FnKey(fn), k)
+				var bad, grow ssa.Instruction
+				core.Instrs(fn, func(g ssa.Instruction) {
+					if bad != nil || g == ins {
+						return
+					}
+					b2, ok := isBufCall(g, "PrependBytes", "AppendBytes")
+					if !ok || b2 != buf {
+						return
+					}
+					if core.ForwardSearch(fn, ins, func(i ssa.Instruction) bool { return i == g }, nil) == nil {
+						return
+					}
+					if w := core.ForwardSearch(fn, g, func(i ssa.Instruction) bool { return writesThrough(i, view, 0) }, func(i ssa.Instruction) bool { return i == ins }); w != nil {
+						bad, grow = w, g
+					}
+				})
+				if bad == nil {
+					r6.OK(key, p.InstrPos(ins), "not written through after a later growth of the buffer")
+				} else {
+					r6.Violate(key, p.InstrPos(ins), "the bytes obtained here are written at "+p.InstrPos(bad)+" after "+p.InstrPos(grow)+" may have moved the buffer to a new array: when the buffer had to grow the write lands in the abandoned array and the output lacks it, so the output depends on the buffer's spare capacity", nil)
+				}
+			})
+		}
+		c.Counts["buffer_views"] = n
+		if n < 100 {
+			r6.Missing("serialize/views", fmt.Sprintf("only %d buffer views found", n))
+		}
+	}
+	r5 := c.Rule("R7.5", "T", "layout selectors agree: the comparisons on a receiver field by which SerializeTo chooses what to write are the comparisons by which the size helper it calls chooses how much to request")
+	{
+		n := 0
+		for _, ser := range p.Roots().Ser {
+			if ser.Signature.Recv() == nil || len(ser.Blocks) == 0 {
+				continue
+			}
+			mine := condAtoms(ser)
+			if len(mine) == 0 {
+				continue
+			}
+			seen := map[*ssa.Function]bool{}
+			core.Instrs(ser, func(ins ssa.Instruction) {
+				cc := core.CallCommonOf(ins)
+				if cc == nil {
+					return
+				}
+				h := cc.StaticCallee()
+				if h == nil || seen[h] || h.Signature.Recv() == nil || len(h.Blocks) == 0 || len(cc.Args) == 0 || cc.Args[0] != ssa.Value(ser.Params[0]) {
+					return
+				}
+				seen[h] = true
+				theirs := condAtoms(h)
+				for f, ta := range theirs {
+					ma, ok := mine[f]
+					if !ok {
+						continue
+					}
+					n++
+					key := core.FnKey(ser) + "/selector:" + f + "/vs:" + h.Name()
+					r5.Check(atomList(ma) == atomList(ta), key, p.Pos(ser.Pos()), "both branch on "+f+" by {"+atomList(ma)+"}", "SerializeTo branches on "+f+" by {"+atomList(ma)+"} but "+h.Name()+", which sizes the buffer, by {"+atomList(ta)+"}: for the values on which they differ the layer is written with a layout that does not fit the requested bytes (panic, or bytes left unwritten)")
+				}
+			})
+		}
+		c.Counts["selector_pairs"] = n
+		if n < 1 {
+			r5.Missing("serialize/selector pairs", "no SerializeTo/size-helper pair branching on a common field found (DHCPv6 was confirmed by reading)")
+		}
+	}
 
 	// helper summaries: bytes of the first []byte parameter written on every return
 	helperMemo := map[*ssa.Function]byteSet{}
@@ -215,6 +326,8 @@ func checkC07(c *core.Ctx) {
 	}
 
 	nReq, nConst := 0, 0
+	nPC := 0
+	pcMemo := map[*ssa.Function]*pcover{}
 	for _, fn := range roots.Ser {
 		if fn.Name() != "SerializeTo" {
 			continue
@@ -236,7 +349,20 @@ func checkC07(c *core.Ctx) {
 			}
 			key := fmt.Sprintf("%s/%s#%d", core.FnKey(fn), call.Call.Method.Name(), ord)
 			if !isK || buf == nil || n <= 0 || n > 2048 {
-				r1.Undecided(key, p.InstrPos(ins), "request size is not a constant")
+				// PCOVER: concrete scenarios (flags enumerated, variable-length fields empty, loops not entered)
+				pc := pcMemo[fn]
+				if pc == nil {
+					pc = PCover(fn, helper)
+					pcMemo[fn] = pc
+				}
+				nPC++
+				if h := pc.holes[call]; h != nil {
+					r1.Violate(key, p.InstrPos(ins), fmt.Sprintf("with {%s} and every variable-length field empty, %d bytes are requested but byte(s) %v are written by no instruction before the successful return: the packet carries whatever the buffer held before", h.Conds, h.Size, compress(h.Bytes)), nil)
+				} else if why := pc.undec[call]; why != "" {
+					r1.Undecided(key, p.InstrPos(ins), "request size is not a constant; "+why)
+				} else {
+					r1.Undecided(key, p.InstrPos(ins), fmt.Sprintf("request size is not a constant; no hole in the %d concrete scenarios explored (flag combinations with empty variable-length fields, loops not entered) — not a proof", pc.okPaths[call]))
+				}
 				return
 			}
 			nConst++
@@ -255,7 +381,16 @@ func checkC07(c *core.Ctx) {
 			case len(holes) > 0:
 				r1.Violate(key, p.InstrPos(ins), fmt.Sprintf("%d bytes are requested but byte(s) %v are written by no instruction on some successful path: the packet carries whatever the buffer held before", n, compress(holes)), nil)
 			case len(soft) > 0:
-				r1.Undecided(key, p.InstrPos(ins), fmt.Sprintf("bytes %v are covered only by copies of unknown length", compress(soft)))
+				pc := pcMemo[fn]
+				if pc == nil {
+					pc = PCover(fn, helper)
+					pcMemo[fn] = pc
+				}
+				if h := pc.holes[call]; h != nil {
+					r1.Violate(key, p.InstrPos(ins), fmt.Sprintf("with {%s} and every variable-length field empty, %d bytes are requested but byte(s) %v are written by no instruction before the successful return (they are covered only by copies whose length is that of a field nothing validates): the packet carries whatever the buffer held before", h.Conds, h.Size, compress(h.Bytes)), nil)
+				} else {
+					r1.Undecided(key, p.InstrPos(ins), fmt.Sprintf("bytes %v are covered only by copies of unknown length", compress(soft)))
+				}
 			default:
 				r1.OK(key, p.InstrPos(ins), fmt.Sprintf("all %d bytes written on every successful path", n))
 			}
@@ -273,6 +408,7 @@ func checkC07(c *core.Ctx) {
 	}
 	c.Counts["buffer_requests"] = nReq
 	c.Counts["constant_size_requests"] = nConst
+	c.Counts["variable_size_requests_walked"] = nPC
 	if nConst < 30 {
 		r1.Missing("layers/requests", fmt.Sprintf("only %d constant-size requests found", nConst))
 	}
@@ -516,10 +652,21 @@ func derivesFrom(v, buf ssa.Value, depth int) bool {
 // constant by a dominating `len(field) != K => return` / `== K` test, or a
 // full slice of a fixed-size array.
 func exactLenAt(fn *ssa.Function, v ssa.Value, b *ssa.BasicBlock) (int64, bool) {
-	if s2, ok := v.(*ssa.Slice); ok && s2.Low == nil && s2.High == nil {
+	if s2, ok := v.(*ssa.Slice); ok {
 		if pt, ok := s2.X.Type().Underlying().(*types.Pointer); ok {
 			if arr, ok := pt.Elem().Underlying().(*types.Array); ok {
-				return arr.Len(), true
+				// a slice of an array with constant (or absent) bounds has exactly hi-lo elements
+				lo, hi := int64(0), arr.Len()
+				okB := true
+				if s2.Low != nil {
+					lo, okB = core.ConstFold(s2.Low)
+				}
+				if s2.High != nil && okB {
+					hi, okB = core.ConstFold(s2.High)
+				}
+				if okB && lo >= 0 && hi >= lo && hi <= arr.Len() {
+					return hi - lo, true
+				}
 			}
 		}
 	}
